@@ -136,6 +136,9 @@ class Effects:
                         rhs = v["init"]
             if rhs is None:
                 continue
+            r0 = strip(rhs)
+            if r0 is not None and r0.get("k") == "mem" and r0.get("rec"):
+                out.add((r0["rec"], r0["f"]))     # a local alias of the container itself (list_copy = channel->all_queries)
             for r2 in walk(rhs):
                 if r2.get("k") == "call" and r2.get("id") is not None:
                     full = f.call_by_id(r2["id"])
